@@ -21,6 +21,8 @@ ACL_FORMULAS = [
   "(rec.{c1} + newRec.{c2}) % 2 == 0", "user.Att.{u} is None or rec.{c2} is not None",
   "rec.{c1} == '{c1}' and rec.{c2} == \"rec.{c2}\"", "user.{c1} == rec.{c1}", "rec.{c1}.{c2} == 3",
   "other.{c1} == rec.{c1}", "rec.{c1} == user.Att2.{u}", "True", "user.Access in ['editors', 'owners']",
+  # Att3 is defined (if at all) by a rule added later than the rules that mention it
+  "user.Att3.{u} == rec.{c1}", "rec.{c2} != 0 and user.Att3.{u} != ''",
   "${c1}==${c2}", "newRec.{c1} < 5 <= rec.{c2}", "rec.{c1} not in [${c2}, 7]", "-rec.{c1} < 0",
   # not parseable: must stay byte-identical
   "rec.{c1} ==", "${c1} +", "rec.{c1} == 1 and", "(rec.{c1}", "rec.{c1} = 1", "lambda: rec.{c1}",
@@ -171,6 +173,27 @@ class C17(HistoryProfile):
         if t is not None:
           return {"k": "bundle", "ops": ["edit_rule"], "a": [
             ["UpdateRecord", "_grist_ACLRules", rid, {"aclFormula": fill(rng.choice(ACL_FORMULAS), t)}]]}
+    if r < 0.58:
+      # a user-attribute rule that comes after (has a higher row id than) rules already using it;
+      # or the first one removed and added again, which moves it behind them as well
+      rules = list(dv.records("_grist_ACLRules"))
+      names = {}
+      for rid, rec in rules:
+        try:
+          names[json.loads(rec.get("userAttributes") or "{}").get("name")] = rid
+        except ValueError:
+          pass
+      if users is not None and "Att3" not in names:
+        return {"k": "bundle", "ops": ["add_user_attr"], "a": [
+          ["AddRecord", "_grist_ACLRules", None, {"resource": rules[0][1]["resource"] if rules else -1,
+            "userAttributes": json.dumps({"name": "Att3", "tableId": users.tableId,
+                                          "lookupColId": ucol, "charId": "Email"})}]]}
+      if users is not None and "Att" in names and rng.random() < 0.5:
+        rec = dict(rules)[names["Att"]]
+        return {"k": "bundle", "ops": ["readd_user_attr"], "a": [
+          ["RemoveRecord", "_grist_ACLRules", names["Att"]],
+          ["AddRecord", "_grist_ACLRules", None, {"resource": rec["resource"],
+                                                  "userAttributes": rec["userAttributes"]}]]}
     if r < 0.62:
       return {"k": "bundle", "ops": ["data"], "a": [["AddRecord", rng.choice(tabs).tableId, None, {}]]}
     # a rename
